@@ -7,6 +7,7 @@ package main
 import (
 	"bytes"
 	"fmt"
+	"go/ast"
 	"go/constant"
 	"go/types"
 	"os"
@@ -191,6 +192,63 @@ func (g *gen) structDef(name string, anon bool, s *types.Struct, named *types.Na
 		tr.CoqString(name), cb(anon), xmlname, strings.Join(fields, ";\n"), cstrs(methodNames(named)))
 }
 
+// closureLiterals returns the sorted set of string literals of the functions reachable, through
+// calls to functions and methods of the same package, from every method named methodName
+// (e.g. all MarshalXML methods): moving a literal into a helper does not change the result.
+func closureLiterals(p *tr.Pkg, roots func(*ast.FuncDecl) bool) []string {
+	byObj := map[types.Object]*ast.FuncDecl{}
+	var all []*ast.FuncDecl
+	for _, f := range p.Files {
+		for _, d := range f.Decls {
+			if fd, ok := d.(*ast.FuncDecl); ok {
+				byObj[p.Info.Defs[fd.Name]] = fd
+				all = append(all, fd)
+			}
+		}
+	}
+	seen := map[*ast.FuncDecl]bool{}
+	var visit func(fd *ast.FuncDecl)
+	visit = func(fd *ast.FuncDecl) {
+		if fd == nil || fd.Body == nil || seen[fd] {
+			return
+		}
+		seen[fd] = true
+		ast.Inspect(fd.Body, func(n ast.Node) bool {
+			var id *ast.Ident
+			switch x := n.(type) {
+			case *ast.Ident:
+				id = x
+			case *ast.SelectorExpr:
+				id = x.Sel
+			}
+			if id != nil {
+				if fn, ok := p.Info.Uses[id].(*types.Func); ok && fn.Pkg() == p.Types {
+					visit(byObj[fn])
+				}
+			}
+			return true
+		})
+	}
+	for _, fd := range all {
+		if roots(fd) {
+			visit(fd)
+		}
+	}
+	set := map[string]bool{}
+	for fd := range seen {
+		strs, _, _ := p.Literals(fd)
+		for _, x := range strs {
+			set[x] = true
+		}
+	}
+	var out []string
+	for x := range set {
+		out = append(out, x)
+	}
+	sort.Strings(out)
+	return out
+}
+
 func main() {
 	repo, out := os.Args[1], os.Args[2]
 	if err := os.Chdir(repo); err != nil {
@@ -257,6 +315,10 @@ func main() {
 		b.Write(tr.EmitLiterals(p, []string{k}))
 	}
 
+	fmt.Fprintf(&b, "\n(* literal sets over everything reachable from all MarshalXML / UnmarshalXML methods *)\n")
+	fmt.Fprintf(&b, "Definition lits_xml_marshal_all : list string := %s.\n", cstrs(closureLiterals(p, func(fd *ast.FuncDecl) bool { return fd.Recv != nil && fd.Name.Name == "MarshalXML" })))
+	fmt.Fprintf(&b, "Definition lits_xml_unmarshal_all : list string := %s.\n", cstrs(closureLiterals(p, func(fd *ast.FuncDecl) bool { return fd.Recv != nil && fd.Name.Name == "UnmarshalXML" })))
+
 	// the streaming scanner's dispatch (package osmxml)
 	sp, err := tr.Load(filepath.Join(repo, "osmxml"), "github.com/paulmach/osm/osmxml")
 	if err != nil {
@@ -265,6 +327,7 @@ func main() {
 	}
 	b.WriteString("\n(* osmxml *)\n")
 	b.Write(tr.EmitLiterals(sp, []string{"Scanner.Scan"}))
+	fmt.Fprintf(&b, "Definition lits_scanner_all : list string := %s.\n", cstrs(closureLiterals(sp, func(fd *ast.FuncDecl) bool { return fd.Recv != nil && fd.Name.Name == "Scan" })))
 
 	if err := tr.Emit(filepath.Join(out, "GenSchema.v"), b.Bytes()); err != nil {
 		fmt.Fprintln(os.Stderr, err)
